@@ -62,6 +62,10 @@ type purgeFixture struct {
 	ids     map[string]int
 }
 
+// purgeBigFile: file f9 (bundle b5) gets more than 1024 leaves (its root blob is larger than 64 KiB); all its leaf
+// blobs stand for the abstract key l9
+var purgeBigFile bool
+
 func newPurgeFixture(e *metaEnv) *purgeFixture {
 	lam := e.lambda
 	blk := func(tag byte, n int) []byte {
@@ -97,7 +101,24 @@ func newPurgeFixture(e *metaEnv) *purgeFixture {
 		root := treeKey(append(append([]byte{}, lA[:]...), lt[:]...), uint32(lam), 1, 0, true)
 		set([]string{"r1", "r2"}[i], root.String())
 	}
+	if purgeBigFile {
+		big := blk('B', lam*1030+10)
+		f.content["f9"] = big
+		var cat []byte
+		for i := 0; i < 1030; i++ {
+			k := treeKey(big[i*lam:(i+1)*lam], uint32(lam), 0, uint64(i+1), false)
+			f.absOf[k.String()] = "l9"
+			cat = append(cat, k[:]...)
+		}
+		lt := treeKey(big[1030*lam:], uint32(lam), 0, 1030, true)
+		set("l9", lt.String())
+		cat = append(cat, lt[:]...)
+		set("r9", treeKey(cat, uint32(lam), 1, 0, true).String())
+	}
 	for n := 3; n <= 9; n++ {
+		if n == 9 && purgeBigFile {
+			continue
+		}
 		ln := treeKey(f.content[fmt.Sprintf("f%d", n)], uint32(lam), 0, 0, true)
 		set(fmt.Sprintf("l%d", n), ln.String())
 		rn := treeKey(ln[:], uint32(lam), 1, 0, true)
@@ -127,6 +148,20 @@ func (f *purgeFixture) abstractBlobs() []string {
 		}
 	}
 	sort.Strings(out)
+	return dedupeSorted(out)
+}
+
+// dedupeSorted: with the big file, its 1031 leaf blobs all stand for "l9"
+func dedupeSorted(in []string) []string {
+	if !purgeBigFile {
+		return in
+	}
+	var out []string
+	for i, s := range in {
+		if i == 0 || s != in[i-1] {
+			out = append(out, s)
+		}
+	}
 	return out
 }
 
@@ -154,7 +189,7 @@ func (f *purgeFixture) indexKeys() ([]string, int) {
 		}
 	}
 	sort.Strings(out)
-	return out, chunks
+	return dedupeSorted(out), chunks
 }
 
 func purgeOpts(dir string, chunk int) []core.PurgeOption {
@@ -169,7 +204,9 @@ func purgeReplay(args []string) error {
 	work := fl.String("work", "", "scratch directory")
 	seed := fl.Uint64("seed", 1, "seed")
 	crc := fl.Bool("crc", false, "CRC-capable stores")
+	big := fl.Bool("big-file", false, "file f9 of bundle b5 has more than 1024 leaves")
 	_ = fl.Parse(args)
+	purgeBigFile = *big
 	res := vutil.NewResult("purge")
 	run := func(i int, line []byte, r *vutil.BehResult) {
 		var c purgeCase
